@@ -79,3 +79,38 @@ Fixpoint reads (q : list queue_entry) (n : nat) : list queue_entry * list queue_
   | S k, e :: r => let '(got, rest) := reads r k in (e :: got, rest)
   | _, _ => ([], q)
   end.
+
+(* ---------- connect(): enter the broker client, start the receive task, subscribe ----------
+   MQTTTransport.connect over MQTTClient: _connect (enter the broker client; on MqttError a
+   transport error, nothing was started), then one _subscribe per topic under asyncio.gather;
+   when a subscription fails connect disconnects (cancels the receive task, leaves the broker
+   client) before the transport error propagates.  [enter_fails] and [sub_faults] are the
+   fault positions; which of the other subscriptions got through before the failure is not
+   modelled (they run concurrently). *)
+Record mqtt_conn := {
+  mc_client : bool;        (* self._client is not None *)
+  mc_task : bool;          (* the receive task exists *)
+  mc_entered : Z;          (* entries minus exits of the broker client's context *)
+  mc_subs : list (str * Z) (* subscriptions known to have been made (on success: all) *)
+}.
+
+Definition mc_init : mqtt_conn := {| mc_client := false; mc_task := false; mc_entered := 0; mc_subs := [] |}.
+
+Inductive conn_outcome := ConnOk | ConnTransportError | ConnRuntimeError.
+
+Definition mqtt_disconnect (s : mqtt_conn) : mqtt_conn * conn_outcome :=
+  if mc_client s && mc_task s
+  then ({| mc_client := false; mc_task := false; mc_entered := mc_entered s - 1; mc_subs := [] |}, ConnOk)
+  else (s, ConnRuntimeError).
+
+Definition mqtt_connect (in_prefix : str) (enter_fails : bool) (sub_faults : list bool) (s : mqtt_conn)
+  : mqtt_conn * conn_outcome :=
+  if mc_client s || mc_task s then (s, ConnRuntimeError)
+  else if enter_fails
+  then ({| mc_client := true; mc_task := false; mc_entered := mc_entered s; mc_subs := [] |}, ConnTransportError)
+  else
+    let started := {| mc_client := true; mc_task := true; mc_entered := mc_entered s + 1; mc_subs := [] |} in
+    let topics := subscriptions in_prefix in
+    if existsb (fun b => b) (firstn (List.length topics) sub_faults)
+    then (fst (mqtt_disconnect started), ConnTransportError)
+    else ({| mc_client := true; mc_task := true; mc_entered := mc_entered s + 1; mc_subs := topics |}, ConnOk).
